@@ -61,6 +61,25 @@ void h_compound(void) {
     int op = OPSEL;          /* one operator per verifier run: 0 +=, 1 -=, 2 *= */
     struct ValueType dst; dst.sign = nondet_bool() ? Sign_SIGNED : Sign_UNSIGNED; dst.pointer = 0; dst.type = VType_INT; dst.bits = 0; dst.constness = 0;
     size_t sz = nondet_size_t(); __CPROVER_assume(sz == 1 || sz == 2 || sz == 4);
+    /* a _Bool variable (C11 6.3.1.2): b op= c stores (b op c) != 0; decided for known values */
+    _Bool is_bool = nondet_bool();
+    if (is_bool) {
+        dst.type = VType_BOOL; dst.sign = Sign_UNKNOWN_SIGN; sz = 1;
+        __CPROVER_assume(v.kind == K_KNOWN && (v.intvalue == 0 || v.intvalue == 1));
+        bigint cb = nondet_bigint(); __CPROVER_assume(cb > -(1LL << 31) && cb < (1LL << 31));
+#if OPSEL == 2
+        __CPROVER_assume(cb >= -512 && cb <= 512);
+#endif
+        bigint rb = op == 0 ? v.intvalue + cb : op == 1 ? v.intvalue - cb : v.intvalue * cb;
+        g_in_v = v.intvalue; g_in_x = v.intvalue; g_in_c = cb; g_in_kind = v.kind; g_in_bound = v.bound; g_in_sz = 1; g_in_sign = 0; g_in_op = op;
+        const char *opsb = op == 0 ? "+=" : op == 1 ? "-=" : "*=";
+        if (!writable_guard(0, opsb, 2)) return;
+        _Bool updb = 0;
+        assign_block(&v, opsb, 2, cb, 1, &dst, sz, &updb);
+        if (!updb) return;
+        __CPROVER_assert(v.intvalue == (rb != 0), "the value of a _Bool variable after `b op= c` is (b op c) != 0");
+        return;
+    }
     _Bool sgn = dst.sign == Sign_SIGNED;
     /* impossible values are decided for int only (see the module text) */
     if (v.kind == K_IMPOSSIBLE) __CPROVER_assume(sgn && sz == 4);
